@@ -514,9 +514,8 @@ def rule_sweep(ctx, repo):
         ctx.check(bool(tf) and not bad, "C08.sweep", "Model.set/dae.Tf", "the setter used by sweep writes dae.Tf (read by calc_As) unconditionally",
                   "Model.set %s: a swept time constant does not reach T^-1 of the state matrix" % (
                       "gates the dae.Tf write by `%s`" % src(bad[0][2][0].test) if bad else "no longer writes dae.Tf"), ms.W(bad[0][1]) if bad else ms.W())
-    ok, wit = f.before(f.calls("TDS.itm_step"), cas) if cas else (False, "")
-    ctx.check(ok, "C08.sweep", "EIG.sweep/relinearise", "Jacobians re-evaluated (itm_step) before each calc_As",
-              "state matrix rebuilt from stale Jacobians during a sweep " + wit, f.W())
+    # re-linearisation of every sweep point: rules/c08_sweep.py (C08.fresh/EIG.sweep/jacobian).  The first version of this rule accepted
+    # `TDS.itm_step()` before calc_As, which re-evaluates the Jacobians only under its lazy-update conditions -- the defect.
 
 
 def rule_fresh(ctx, repo):
@@ -592,3 +591,5 @@ def run(ctx):
     rule_run(ctx, repo)
     rule_sweep(ctx, repo)
     rule_fresh(ctx, repo)
+    from rules import c08_sweep
+    c08_sweep.run_rule(ctx, repo)
